@@ -230,6 +230,27 @@ Theorem C09_stale_lang_refuted :
 Proof. exact stale_lang_refuted. Qed.
 Print Assumptions C09_stale_lang_refuted.
 
+
+(* known class C09-noop-calc-keeps-hash (status known: /repo frozen).  calc_script_data_hash stores a hash and never
+   clears one: when every Plutus witness present at an earlier calc has been replaced away (the outpoint added again as a
+   key input, a sub-builder replaced), the last calc finds nothing to hash and leaves the earlier hash; build_tx emits it
+   although the witness set has no redeemers and no datums.  The histories consist of add_* / set_* calls only and the
+   hash IS computed after the last one, so the property is violated; C09_same_bytes_history excludes the class through its
+   premise `has_script_items b0 || is_none (hash b0)`, C09_same_bytes_additive through `additive` (no replacement). *)
+Theorem C09_noop_calc_refuted : forall H : bytes -> bytes,
+  exists t p,
+    build_tx H (fst (run H builder_new noop_calc_ops)) = Ok t /\
+    tx_script_data_hash t = Some (H p) /\
+    (let fs := ws_fields (tx_witness_set t) in
+     assoc_field 5 fs = None /\ assoc_field 4 fs = None /\
+     ledger_script_integrity H (assoc_field 5 fs) (assoc_field 4 fs) (langs_used (fst (run H builder_new noop_calc_ops))) stale_lang_cm = None) /\
+    snd (run H builder_new noop_calc_ops) = [true; true] /\
+    known_noop_calc H noop_calc_ops = true /\
+    additive H builder_new noop_calc_ops = false /\
+    build_tx H (fst (run H builder_new [OpSetSub SubCollateral (mk_sub [] [] []) 1; OpSetSub SubInputs (mk_sub [] [V2] []) 0; OpCalc stale_lang_cm])) = Err.
+Proof. exact noop_calc_refuted. Qed.
+Print Assumptions C09_noop_calc_refuted.
+
 (* calc_script_data_hash on a builder without script items is a no-op: a hash stored earlier is kept (the reason for
    the premise `has_script_items b0 \/ hash b0 = None` above) *)
 Theorem C09_calc_noop_keeps_hash : forall (H : bytes -> bytes) (b : builder) (cm : costmdls),
@@ -414,3 +435,10 @@ Example C09_entries_example :
   known_stale_lang_gen true (builder_of ex_pay ex_txb 1 None None None) = true /\
   NoDup (map fst (P.t_wdrl ex_txb)).
 Proof. repeat split; try reflexivity. constructor. Qed.
+(* the class is narrow: a hash installed by hand, or a final calc that had something to hash, is not in it *)
+Example C09_noop_class_narrow :
+  known_noop_calc idH [OpSetHash [1]; OpCalc cm_empty] = false /\
+  known_noop_calc idH (noop_calc_ops ++ [OpAddExtraDatum ex_datum_a; OpCalc stale_lang_cm]) = false /\
+  known_noop_calc idH ex_ops = false.
+Proof. repeat split; reflexivity. Qed.
+
